@@ -68,27 +68,27 @@ pub fn plan_for(prop: &str, tier: &str) -> Plan {
         }
         "C04" => {
             p.scenarios = if q {
-                sc(&[("repl", 1), ("repl-i1-sz", 1), ("crash3", 1), ("crash2-async", 1), ("fig8-div", 1), ("fig8-div", 2), ("fig8-div-gc", 1), ("fig8-div-gc", 2), ("fig8-back", 0), ("read-div", 1), ("read-div", 2), ("fig8-5-cbv", 0), ("member-rm1-2v", 0), ("member-a1", 0), ("member-a1", 1), ("fig8-back-t4", 0), ("crash2-async-loose", 1), ("relead5", 1), ("relead5", 2), ("member-joint", 1), ("member", 1), ("fig8", 1)])
+                sc(&[("repl", 1), ("repl-i1-sz", 1), ("crash3", 1), ("crash2-async", 1), ("fig8-div", 1), ("fig8-div", 2), ("fig8-div-gc", 1), ("fig8-div-gc", 2), ("fig8-back", 0), ("read-div", 1), ("read-div", 2), ("fig8-5-cbv", 0), ("member-rm1-2v", 0), ("member-a1", 0), ("member-a1", 1), ("repl-lazy3-sz", 0), ("fig8-back-t4", 0), ("crash2-async-loose", 1), ("relead5", 1), ("relead5", 2), ("member-joint", 1), ("member", 1), ("fig8", 1)])
             } else {
-                sc(&[("repl", 1), ("repl-i1-sz", 1), ("crash3", 1), ("crash2-async", 1), ("fig8-div", 1), ("fig8-div", 2), ("fig8-div-gc", 1), ("fig8-div-gc", 2), ("fig8-back", 0), ("read-div", 1), ("read-div", 2), ("fig8-5-cbv", 0), ("member-rm1-2v", 0), ("member-a1", 0), ("member-a1", 1), ("fig8-back-t4", 0), ("crash2-async-loose", 1), ("relead5", 1), ("relead5", 2), ("member-joint", 1), ("member", 1), ("fig8", 1), ("repl-async", 1), ("repl-gc", 1), ("repl-skip", 1), ("repl", 2), ("crash3-async", 1), ("member-joint", 2), ("member", 2), ("crash3-async-loose", 1), ("repl", 3)])
+                sc(&[("repl", 1), ("repl-i1-sz", 1), ("crash3", 1), ("crash2-async", 1), ("fig8-div", 1), ("fig8-div", 2), ("fig8-div-gc", 1), ("fig8-div-gc", 2), ("fig8-back", 0), ("read-div", 1), ("read-div", 2), ("fig8-5-cbv", 0), ("member-rm1-2v", 0), ("member-a1", 0), ("member-a1", 1), ("repl-lazy3-sz", 0), ("fig8-back-t4", 0), ("crash2-async-loose", 1), ("relead5", 1), ("relead5", 2), ("member-joint", 1), ("member", 1), ("fig8", 1), ("repl-async", 1), ("repl-gc", 1), ("repl-skip", 1), ("repl", 2), ("crash3-async", 1), ("member-joint", 2), ("member", 2), ("crash3-async-loose", 1), ("repl", 3)])
             };
             p.required_stats = vec![Stat::CommitAdvances, Stat::Crashes];
             p.explanation = "explicit-state exploration; at every leader commit advance: entry of own term and durable (on the simulated disks, not in raft-rs bookkeeping) on a majority of each half of the leader's configuration; non-leader commit never beyond a leader's".into();
         }
         "C05" => {
             p.scenarios = if q {
-                sc(&[("fig8-back", 0), ("fig8-back", 1), ("fig8", 1), ("fig8-div", 2), ("repl", 1), ("repl-div", 1), ("repl-mix", 1), ("crash3", 1), ("fig8-back-t4", 0), ("repl-batch", 1)])
+                sc(&[("fig8-back", 0), ("fig8-back", 1), ("fig8", 1), ("fig8-div", 2), ("repl", 1), ("repl-div", 1), ("repl-mix", 1), ("repl-lazy3-sz", 0), ("crash3", 1), ("fig8-back-t4", 0), ("repl-batch", 1)])
             } else {
-                sc(&[("fig8-back", 0), ("fig8-back", 1), ("fig8", 1), ("fig8-div", 2), ("repl", 1), ("repl-div", 1), ("repl-mix", 1), ("crash3", 1), ("fig8-back-t4", 0), ("repl-batch", 1), ("repl-div", 2), ("repl-mix", 3), ("fig8-div", 3), ("fig8-back", 2), ("repl", 2), ("crash3", 2), ("fig8", 2), ("repl-batch", 2)])
+                sc(&[("fig8-back", 0), ("fig8-back", 1), ("fig8", 1), ("fig8-div", 2), ("repl", 1), ("repl-div", 1), ("repl-mix", 1), ("repl-lazy3-sz", 0), ("crash3", 1), ("fig8-back-t4", 0), ("repl-batch", 1), ("repl-div", 2), ("repl-mix", 3), ("fig8-div", 3), ("fig8-back", 2), ("repl", 2), ("crash3", 2), ("fig8", 2), ("repl-batch", 2)])
             };
             p.required_stats = vec![Stat::Truncations, Stat::CommitAdvances];
             p.explanation = "explicit-state exploration; pairwise log matching over all live nodes (stable + unstable entries) after every API call; leader append-only and committed-prefix immutability as pre/post relations of every call".into();
         }
         "C06" => {
             p.scenarios = if q {
-                sc(&[("crash2", 1), ("crash3", 1), ("crash2-async", 1), ("over", 0), ("crash2-lazy-gpv", 2), ("member-c4", 0), ("member-fresh", 0), ("member-fresh", 1), ("xfer-race", 0), ("crash2-async-loose", 1), ("elect-stale-nosync", 0), ("stale", 0), ("stale-lazy", 0), ("stale-async", 0), ("snap-req", 0), ("crash3-lazy", 1)])
+                sc(&[("crash2", 1), ("crash3", 1), ("crash2-async", 1), ("over", 0), ("crash2-lazy-gpv", 2), ("repl-lazy3-sz", 0), ("member-c4", 0), ("member-fresh", 0), ("member-fresh", 1), ("xfer-race", 0), ("crash2-async-loose", 1), ("elect-stale-nosync", 0), ("stale", 0), ("stale-lazy", 0), ("stale-async", 0), ("snap-req", 0), ("crash3-lazy", 1)])
             } else {
-                sc(&[("crash2", 1), ("crash3", 1), ("crash2-async", 1), ("over", 0), ("crash2-lazy-gpv", 2), ("member-c4", 0), ("member-fresh", 0), ("member-fresh", 1), ("xfer-race", 0), ("crash2-async-loose", 1), ("elect-stale-nosync", 0), ("stale", 0), ("stale-lazy", 0), ("stale-async", 0), ("snap-req", 0), ("crash3-lazy", 1), ("crash2", 3), ("crash3", 2), ("stale-lazy", 1), ("stale-async", 1), ("crash3-async", 1), ("crash2-async-loose", 2), ("elect", 2), ("crash3", 3)])
+                sc(&[("crash2", 1), ("crash3", 1), ("crash2-async", 1), ("over", 0), ("crash2-lazy-gpv", 2), ("repl-lazy3-sz", 0), ("member-c4", 0), ("member-fresh", 0), ("member-fresh", 1), ("xfer-race", 0), ("crash2-async-loose", 1), ("elect-stale-nosync", 0), ("stale", 0), ("stale-lazy", 0), ("stale-async", 0), ("snap-req", 0), ("crash3-lazy", 1), ("crash2", 3), ("crash3", 2), ("stale-lazy", 1), ("stale-async", 1), ("crash3-async", 1), ("crash2-async-loose", 2), ("elect", 2), ("crash3", 3)])
             };
             p.required_stats = vec![Stat::MsgsReleased, Stat::AcksReleased, Stat::VotesGranted, Stat::Crashes, Stat::Restarts];
             p.explanation = "explicit-state exploration over every crash point of the Ready round (after ready(), after k of the writes, after fsync, after persisted sends, after advance) in sync, async and lazy application modes; every released message checked against the node's durable disk at release time; one vote per term across incarnations; term monotone".into();
